@@ -61,6 +61,7 @@ class FnRecord:
     callees: list = field(default_factory=list)   # names in call position in the SOURCE text of the item
     n_closures: int = 0                            # closure expressions in the SOURCE text of the item
     skeleton: str = ''                             # control skeleton of the SOURCE text of the item
+    if_ord: dict = field(default_factory=dict)     # hint key -> [k, n]: the anchor is the k-th of the n `if`s of the body (hints anchored on an `if` header)
     aid_ctx: dict = field(default_factory=dict)    # where each position-bound proof aid sits (enclosing block kinds) / what it relies on (exits)
 
 
@@ -241,6 +242,12 @@ class Unit:
         self.listed_fns = {}        # (file, impl selector) -> set of fn names extracted (coverage)
         self.literals = {}
         self.hints_dropped = []
+        self.hints_relocated = []   # if-anchored hints placed by the ordinal of their `if` (the condition text changed)
+        bp = os.path.join(os.path.dirname(os.path.dirname(os.path.abspath(__file__))), 'baseline_shapes.json')
+        try:
+            self.baseline = json.load(open(bp)).get(name, {}) if os.path.exists(bp) else {}
+        except ValueError:
+            self.baseline = {}
 
     # ---------------------------------------------------------------- template
     def load_tpl(self, path, seen=None):
@@ -1166,11 +1173,31 @@ class Unit:
                     hits = hits[-1:]
                 elif mm.group(2) is not None:
                     hits = hits[int(mm.group(2)):int(mm.group(2)) + 1]
-                if len(hits) != 1:
+                hkey = '%s `%s`%s' % (c[0], mm.group(1), ('#' + mm.group(2)) if mm.group(2) else '')
+                if_toks = [i for i in range(body + 1, br[body]) if toks[i].kind == 'ident' and toks[i].text == 'if']
+                reloc = None
+                if len(hits) == 0 and c[0] == 'before' and re.match(r'if\b', mm.group(1).strip()) and mm.group(1).strip().endswith('{'):
+                    # the anchor is an `if` header and its exact text is gone: if the body still has as many `if`s as the text the hint was written
+                    # for (baseline_shapes.json), the hint goes before the `if` with the same ordinal -- the condition was edited, the statement
+                    # is still there. (A mutated condition must be judged, not lose the proof step that sits in front of it.)
+                    bo = self.baseline.get(rec.selector, {}).get('if_ord', {}).get(hkey)
+                    if bo and bo[1] == len(if_toks) and 0 <= bo[0] < len(if_toks):
+                        reloc = toks[if_toks[bo[0]]].start
+                if len(hits) != 1 and reloc is None:
                     # a proof hint whose anchor statement is gone (or became ambiguous) is DROPPED, not fatal: the obligations stay,
                     # the verifier decides without the hint (recorded for the evidence)
                     self.hints_dropped.append('%s: hint anchor `%s`%s matches %d times' % (rec.selector, mm.group(1), ('#' + mm.group(2)) if mm.group(2) else '', len(hits)))
                     continue
+                if reloc is not None:
+                    self.hints_relocated.append('%s: %s placed before the `if` with the same ordinal (condition text changed)' % (rec.selector, hkey))
+                    txt = mm.group(3)
+                    edits.append(Edit(reloc, reloc, txt + ' ', ('spec', tplpath, c[2], c[3]), prio=3))
+                    rec.n_hints += 1
+                    rec.aid_ctx[hkey] = self._path_of(reloc + 1)
+                    continue
+                if c[0] == 'before' and re.match(r'if\b', mm.group(1).strip()) and mm.group(1).strip().endswith('{'):
+                    at = body_lo + hits[0].start()
+                    rec.if_ord[hkey] = [sum(1 for i in if_toks if toks[i].start < at), len(if_toks)]
                 off = body_lo + (hits[0].end() if c[0] == 'after' else hits[0].start())
                 txt = mm.group(3)
                 edits.append(Edit(off, off, (' ' + txt + ' ') if c[0] == 'after' else (txt + ' '), ('spec', tplpath, c[2], c[3]), prio=3))
